@@ -147,7 +147,11 @@ fn run_svd3(c: &mut Ctx) {
             let gap = (b.sv[0] - b.sv[1]).abs().min((b.sv[1] - b.sv[2]).abs()) / b.sv[0];
             if gap > 1e-3 {
                 let worst = (0..3).map(|i| same_up_to_sign3(&b2.basis[i], &b.basis[i])).fold(0.0, f64::max);
-                c.close(api, "unchanged by uniformly scaling all weights (basis)", wname, worst, 0.0, 1e-8 / gap * (1.0 + cref));
+                // strongly anisotropic data (second singular value below 1% of the first) is its own
+                // input class: the dependency's SVD returns the minor axes with erratic accuracy
+                // there (known finding)
+                let cls = if b.sv[1] < 1e-2 * b.sv[0] { "weights/minor-axes-below-1%-of-major" } else { wname };
+                c.close(api, "unchanged by uniformly scaling all weights (basis)", cls, worst, 0.0, 1e-8 / gap * (1.0 + cref));
             }
         }
         // equal weights: the unweighted centre and basis
